@@ -8,6 +8,12 @@ pub fn generate2(prop: &str, tier: &str, rng: &mut Rng, w: &mut dyn Write) {
         "C02" => gen_iter_c02(tier, rng, w),
         "C04" => gen_iter_c04(tier, rng, w),
         "C08" => gen_iter_c08(tier, rng, w),
+        "C05" => crate::gen3::gen_c05(tier, rng, w),
+        "C06" => crate::gen3::gen_c06(tier, rng, w),
+        "C09" => crate::gen3::gen_c09(tier, rng, w),
+        "C10" => crate::gen3::gen_c10(tier, rng, w),
+        "C12" => crate::gen3::gen_c12(tier, rng, w),
+        "C17" => crate::gen3::gen_c17(tier, rng, w),
         _ => {
             eprintln!("harness: no generator for {}", prop);
             std::process::exit(2);
